@@ -4,12 +4,12 @@ From PE2 Require Import Eval.
 Local Open Scope Z_scope.
 
 Definition ped_fail {A} (x : outcome A * st) : Prop :=
-  exists d s, x = (Fail (FErr d), s) /\ d_kind d = DPedantic.
+  exists d s, x = (Fail (FErr d), s) /\ d_kind d = DPedantic /\ d_cls d = EOther.
 Definition R {A} (x y : outcome A * st) : Prop := x = y \/ ped_fail x.
 Definition RM {A} (m1 m2 : M A) : Prop := forall s, R (m1 s) (m2 s).
 
 Definition is_ped_failure (f : fail) : bool :=
-  match f with FErr d => match d_kind d with DPedantic => true | _ => false end | _ => false end.
+  match f with FErr d => match d_kind d, d_cls d with DPedantic, EOther => true | _, _ => false end | _ => false end.
 
 Lemma RM_refl {A} (m : M A) : RM m m.
 Proof. intros s. left. reflexivity. Qed.
@@ -23,7 +23,7 @@ Proof.
 Qed.
 
 Lemma RM_ped_guard t : RM (ped_guard true t) (ped_guard false t).
-Proof. intros s. right. unfold ped_guard, pedantic_error, failm. eexists. eexists. split; [reflexivity|reflexivity]. Qed.
+Proof. intros s. right. unfold ped_guard, pedantic_error, failm. eexists. eexists. split; [reflexivity|split; reflexivity]. Qed.
 
 Lemma RM_if {A} (b : bool) (x1 x2 y1 y2 : M A) : RM x1 x2 -> RM y1 y2 -> RM (if b then x1 else y1) (if b then x2 else y2).
 Proof. destruct b; auto. Qed.
@@ -44,7 +44,7 @@ Proof.
   intros Hm [Hp Hh] s. unfold catch. destruct (Hm s) as [E|[d [s' [E Hd]]]].
   - rewrite E. destruct (m2 s) as [[a|f] s1]; [left; reflexivity|].
     specialize (Hh f). destruct (h1 f) as [a|], (h2 f) as [b|]; try contradiction; [apply Hh|left; reflexivity].
-  - rewrite E. assert (Hn : h1 (FErr d) = None) by (apply Hp; cbn; rewrite Hd; reflexivity).
+  - rewrite E. assert (Hn : h1 (FErr d) = None) by (apply Hp; cbn; destruct Hd as [Hk Hc]; rewrite Hk, Hc; reflexivity).
     rewrite Hn. right. exists d, s'. split; [reflexivity|exact Hd].
 Qed.
 
@@ -149,3 +149,135 @@ Proof.
   cbn [fst snd] in *. apply RM_bind; [exact Hm|]. intros v. apply RM_if; [|exact IH]. apply RM_bind; [exact Hb|]. intros _. apply RM_refl.
 Qed.
 End Loops.
+
+Lemma RM_catch_cls {A} (m1 m2 : M A) want (h1 h2 : fail -> M A) :
+  RM m1 m2 -> (forall fl, RM (h1 fl) (h2 fl)) -> want EOther = false -> RM (catch_cls m1 want h1) (catch_cls m2 want h2).
+Proof.
+  intros Hm Hh Hw. unfold catch_cls. apply RM_catch; [exact Hm|]. split.
+  - intros f Hf. destruct f as [d| | | | | |]; try discriminate. cbn in Hf.
+    destruct (d_kind d); try discriminate. destruct (d_cls d) eqn:E; try discriminate. rewrite Hw. reflexivity.
+  - intros f. destruct f as [d| | | | | |]; try exact I. destruct (want (d_cls d)); [apply Hh|exact I].
+Qed.
+
+Lemma Forall2_map_same {A B} (P : B -> B -> Prop) (f g : A -> B) l : (forall x, P (f x) (g x)) -> Forall2 P (map f l) (map g l).
+Proof. intros H. induction l; cbn; constructor; auto. Qed.
+
+(* ---------------- the evaluator ---------------- *)
+Section Main.
+Variable repl : bool.
+Variable lim : limits.
+
+(* two records of evaluation functions are related when they have the same level and every component is *)
+Definition evs_rel (a b : evs) : Prop :=
+  ev_fuel a = ev_fuel b /\
+  (forall n c, RM (ev_eval a n c) (ev_eval b n c)) /\
+  (forall r c, RM (ev_resolve a r c) (ev_resolve b r c)) /\
+  (forall v e c, RM (ev_case_equals a v e c) (ev_case_equals b v e c)) /\
+  (forall v lo hi c, RM (ev_case_range a v lo hi c) (ev_case_range b v lo hi c)) /\
+  (forall bl c, RM (ev_run_block a bl c) (ev_run_block b bl c)) /\
+  (forall name ty cst owner, RM (ev_new_var a name ty cst owner) (ev_new_var b name ty cst owner)) /\
+  (forall name ty dims owner, RM (ev_new_array a name ty dims owner) (ev_new_array b name ty dims owner)) /\
+  (forall t params args vals c fc, RM (ev_bind_args a t params args vals c fc) (ev_bind_args b t params args vals c fc)) /\
+  (forall t name args c, RM (ev_call_procedure a t name args c) (ev_call_procedure b t name args c)) /\
+  (forall t args c, RM (ev_call_function a t args c) (ev_call_function b t args c)).
+
+Section Bodies.
+Variables a b : evs.
+Hypothesis Hfuel : ev_fuel a = ev_fuel b.
+Hypothesis He : forall n c, RM (ev_eval a n c) (ev_eval b n c).
+Hypothesis Hr : forall r c, RM (ev_resolve a r c) (ev_resolve b r c).
+Hypothesis Hce : forall v e c, RM (ev_case_equals a v e c) (ev_case_equals b v e c).
+Hypothesis Hcr : forall v lo hi c, RM (ev_case_range a v lo hi c) (ev_case_range b v lo hi c).
+Hypothesis Hb : forall bl c, RM (ev_run_block a bl c) (ev_run_block b bl c).
+Hypothesis Hv : forall name ty cst owner, RM (ev_new_var a name ty cst owner) (ev_new_var b name ty cst owner).
+Hypothesis Ha : forall name ty dims owner, RM (ev_new_array a name ty dims owner) (ev_new_array b name ty dims owner).
+Hypothesis Hba : forall t params args vals c fc, RM (ev_bind_args a t params args vals c fc) (ev_bind_args b t params args vals c fc).
+Hypothesis Hp : forall t name args c, RM (ev_call_procedure a t name args c) (ev_call_procedure b t name args c).
+Hypothesis Hf : forall t args c, RM (ev_call_function a t args c) (ev_call_function b t args c).
+
+Ltac rm :=
+  repeat first
+    [ match goal with |- RM ?x ?y => constr_eq x y; apply RM_refl end
+    | apply RM_ped_guard
+    | apply He | apply Hr | apply Hce | apply Hcr | apply Hb | apply Hv | apply Ha | apply Hba | apply Hp | apply Hf
+    | match goal with
+      | |- RM (bind _ _) (bind _ _) => apply RM_bind; [ | intros ? ]
+      | |- RM (if ?c then _ else _) (if ?c then _ else _) => destruct c
+      | |- RM (match ?x with _ => _ end) (match ?x with _ => _ end) => destruct x
+      | |- RM (catch_cls _ _ _) (catch_cls _ _ _) => apply RM_catch_cls; [ | intros ? | reflexivity ]
+      | |- RM (mapM _ _) (mapM _ _) => apply RM_mapM; intros ?
+      | |- RM (iterM _ _) (iterM _ _) => apply RM_iterM; intros ?
+      | |- RM (repeatM _ _) (repeatM _ _) => apply RM_repeatM
+      | |- RM (call_body _ _ _ _) (call_body _ _ _ _) => apply RM_call_body
+      | |- RM (eval_bounds _ _ _ _) (eval_bounds _ _ _ _) => apply RM_eval_bounds; intros ?
+      | |- RM (eval_indices _ _ _ _) (eval_indices _ _ _ _) => apply RM_eval_indices; intros ?
+      | |- RM (while_loop _ _ _ _ _ _) (while_loop _ _ _ _ _ _) => apply RM_while
+      | |- RM (repeat_loop _ _ _ _ _ _) (repeat_loop _ _ _ _ _ _) => apply RM_repeat
+      | |- RM (for_loop _ _ _ _ _ _ _ _) (for_loop _ _ _ _ _ _ _ _) => apply RM_for
+      | |- RM (if_chain _ _ _) (if_chain _ _ _) => apply RM_if_chain; intros ?
+      | |- RM (case_chain _) (case_chain _) => apply RM_case_chain; apply Forall2_map_same; intros ?
+      | |- _ /\ _ => split
+      | |- RM (fst (match ?x with _ => _ end)) _ => destruct x; cbn [fst snd]
+      | |- RM (snd (match ?x with _ => _ end)) _ => destruct x; cbn [fst snd]
+      end ].
+
+Lemma eval_body_rel n c : RM (eval_body true lim a n c) (eval_body false lim b n c).
+Proof. destruct n; unfold eval_body; rewrite <- ?Hfuel; rm. Qed.
+
+Lemma resolve_body_rel r c : RM (resolve_body a r c) (resolve_body b r c).
+Proof. destruct r; unfold resolve_body; rm. Qed.
+
+Lemma case_equals_body_rel v e c : RM (case_equals_body a v e c) (case_equals_body b v e c).
+Proof. unfold case_equals_body; rm. Qed.
+
+Lemma case_range_body_rel v lo hi c : RM (case_range_body a v lo hi c) (case_range_body b v lo hi c).
+Proof. unfold case_range_body; rm. Qed.
+
+Lemma run_block_body_rel bl c : RM (run_block_body repl lim a bl c) (run_block_body repl lim b bl c).
+Proof. unfold run_block_body; rm. Qed.
+
+Lemma new_var_body_rel name ty cst owner : RM (new_var_body a name ty cst owner) (new_var_body b name ty cst owner).
+Proof. unfold new_var_body; rm. Qed.
+
+Lemma new_array_body_rel name ty dims owner : RM (new_array_body lim a name ty dims owner) (new_array_body lim b name ty dims owner).
+Proof. unfold new_array_body; rm. Qed.
+
+Lemma bind_args_body_rel t params args vals c fc : RM (bind_args_body a t params args vals c fc) (bind_args_body b t params args vals c fc).
+Proof. unfold bind_args_body; rm. Qed.
+
+Lemma call_procedure_body_rel t name args c : RM (call_procedure_body lim a t name args c) (call_procedure_body lim b t name args c).
+Proof. unfold call_procedure_body; rm. Qed.
+
+Lemma call_function_body_rel t args c : RM (call_function_body lim a t args c) (call_function_body lim b t args c).
+Proof. unfold call_function_body; rm. Qed.
+End Bodies.
+
+Lemma evs_step_rel a b : evs_rel a b -> evs_rel (evs_step true repl lim a) (evs_step false repl lim b).
+Proof.
+  intros [H0 [H1 [H2 [H3 [H4 [H5 [H6 [H7 [H8 [H9 H10]]]]]]]]]]. unfold evs_rel, evs_step. cbn.
+  split; [rewrite H0; reflexivity|].
+  split; [intros; apply eval_body_rel; assumption|].
+  split; [intros; apply resolve_body_rel; assumption|].
+  split; [intros; apply case_equals_body_rel; assumption|].
+  split; [intros; apply case_range_body_rel; assumption|].
+  split; [intros; apply run_block_body_rel; assumption|].
+  split; [intros; apply new_var_body_rel; assumption|].
+  split; [intros; apply new_array_body_rel; assumption|].
+  split; [intros; apply bind_args_body_rel; assumption|].
+  split; [intros; apply call_procedure_body_rel; assumption|].
+  intros; apply call_function_body_rel; assumption.
+Qed.
+
+Lemma evs_at_rel fuel : evs_rel (evs_at true repl lim fuel) (evs_at false repl lim fuel).
+Proof.
+  induction fuel as [|f IH]; cbn [evs_at]; [|apply evs_step_rel; exact IH].
+  unfold evs_rel, evs_zero. cbn. repeat split; intros; apply RM_refl.
+Qed.
+
+(* with --pedantic the evaluator either stops with a pedantic Error or does exactly what it does without *)
+Theorem eval_ped_only_rejects fuel n c : RM (eval true repl lim fuel n c) (eval false repl lim fuel n c).
+Proof. unfold eval. destruct (evs_at_rel fuel) as [_ [H _]]. apply H. Qed.
+
+Theorem run_block_ped_only_rejects fuel bl c : RM (run_block true repl lim fuel bl c) (run_block false repl lim fuel bl c).
+Proof. unfold run_block. destruct (evs_at_rel fuel) as [_ [_ [_ [_ [_ [H _]]]]]]. apply H. Qed.
+End Main.
